@@ -277,6 +277,50 @@ def direct_table(fn, pb):
     return out
 
 
+COSTS = ("uf", "ub", "wd", "rd")
+
+
+def zero_default_rule(chk, repo):
+    """cost plumbing of the Revolve-family constructors: a step cost may be 0 (free disk reads or writes), so a cost must
+    not pass through `cost or default` / a truthiness test - `0 or d` is d: another cost vector than the one given is
+    optimised.  Costs are the parameters named uf/ub/wd/rd of the functions of hrevolve.py, and whatever is built from
+    them (dict/list displays, their items)."""
+    rel = "hrevolve.py"
+    k = 0
+    for relq, q, f in repo.all_functions():
+        if relq != rel:
+            continue
+        params = {a.arg for a in f.args.args + f.args.kwonlyargs}
+        tainted = set(params & set(COSTS))
+        if not tainted:
+            continue
+        changed = True
+
+        def is_t(e):
+            return any(isinstance(x, ast.Name) and x.id in tainted for x in ast.walk(e))
+        while changed:
+            changed = False
+            for n in ast.walk(f):
+                if isinstance(n, ast.Assign) and is_t(n.value):
+                    for t in n.targets:
+                        for x in ast.walk(t):
+                            if isinstance(x, ast.Name) and isinstance(x.ctx, ast.Store) and x.id not in tainted:
+                                tainted.add(x.id)
+                                changed = True
+        for n in ast.walk(f):
+            bad = None
+            if isinstance(n, ast.BoolOp) and isinstance(n.op, ast.Or) and is_t(n.values[0]) \
+                    and not isinstance(n.values[0], (ast.Compare, ast.BoolOp, ast.UnaryOp)):
+                bad = n
+            elif isinstance(n, ast.IfExp) and is_t(n.test) and isinstance(n.test, (ast.Name, ast.Subscript, ast.Attribute)):
+                bad = n
+            if bad is not None:
+                chk.decide("C07.ROLE", f"{rel[:-3]}.{q}#zero-cost[{k}]", False,
+                           f"`{' '.join(ast.unparse(bad).split())[:80]}` tests a step cost for truth: a cost of 0 is replaced, "
+                           "the schedule is optimised for other costs than the ones given", rel=rel, node=bad)
+                k += 1
+
+
 def run(chk, ctx):
     chk.describe("C07.ROLE", "every live cost expression is invariant under substituting the roles that actually flow in")
     chk.describe("C07.TABLE", "each split decision evaluates the candidate expression its table minimises, against the same fallback")
@@ -298,6 +342,7 @@ def run(chk, ctx):
         else:
             detail = f"`{txt}`: role of an operand unknown"
         chk.decide("C07.ROLE", s.construct, v, detail, rel=s.rel, node=s.node)
+    zero_default_rule(chk, repo)
     chk.extra["role_sinks"] = len(rf.sinks)
     chk.extra["role_contexts"] = len(rf.seen)
     # ---- TABLE
